@@ -287,6 +287,19 @@ def features(desc: dict) -> set[str]:
         f.add("nodef-under-two-types")
     if any(len(v) > 1 for v in def_types.values()):
         f.add("def-under-two-types")
+    if not reqs:
+        f.add("empty-module")
+    if any(r["type"] and not r["attrs"] for r in reqs):
+        f.add("typed-requirement-without-attributes")
+
+    def depth(c):
+        return 1 + max((depth(x) for x in c["folders"]), default=0)
+
+    dp = depth(desc) - 1
+    if dp >= 8:
+        f.add("folder-depth>=8")
+    if dp >= 64:
+        f.add("folder-depth>=64")
     if desc["type"] is None:
         f.add("module-type:none")
     if any(ch in desc["long_name"] for ch in "<>&"):
@@ -1386,6 +1399,26 @@ def run(ctx: Ctx) -> Outcome:
             finally:
                 h.discard()
     out.extra["directed_histories"] = len(DIRECTED)
+
+    # (b1) deep nesting: a chain of folders with a requirement at every eighth level and at the bottom (the exporter's
+    # three traversals are recursive generators; CPython's recursion limit is near 1000 frames)
+    depth = ctx.pick(96, 400)
+    ops = []
+    for i in range(depth):
+        ops.append(["add_folder", i, f"F{i}"])
+        if i % 8 == 7:
+            ops.append(["add_req", i + 1, f"R{i}", "", "", "", ""])
+    ops.append(["add_req", depth, "leaf", "n", "c", "ID", "<p>t</p>"])
+    ops.append(["add_req", 0, "top", "", "", "", ""])
+    for rel in hist_models_of(airds, ctx)[:1]:
+        h = History(env.model(rel), env.reqif)
+        try:
+            for op in ops:
+                h.apply(op)
+            evaluate(env, h.mod, {"kind": "history", "model": rel, "ops": ops}, out, pending)
+        finally:
+            h.discard()
+    out.extra["deep_nesting_depth"] = depth
 
     # (b) edit histories
     hist_models = hist_models_of(airds, ctx)
